@@ -49,10 +49,40 @@ def rand_pattern(rng, m, n, style):
     elif style == 'symmetric' and m == n:
         p = sorted(set([c for c in cells if rng.random() < 0.4] + [(i, i) for i in range(m) if rng.random() < 0.7]))
         p = sorted(set(p + [(j, i) for (i, j) in p]))
+    elif style == 'emptyrc':
+        # zero rows and/or zero columns: first, middle, last, several
+        dens = rng.choice([0.5, 0.75, 1.0])
+        p = [c for c in cells if rng.random() < dens]
+        zr, zc = empty_lines(rng, m), empty_lines(rng, n)
+        if rng.random() < 0.3:
+            zc = []
+        elif rng.random() < 0.3:
+            zr = []
+        p = [c for c in p if c[0] not in zr and c[1] not in zc]
     else:
         dens = rng.choice([0.25, 0.5, 0.75])
         p = [c for c in cells if rng.random() < dens]
     return [list(c) for c in p]
+
+
+def empty_lines(rng, n):
+    """which rows (columns) of an n-row block are left empty: first / a middle one / last / several"""
+    if n <= 1:
+        return []
+    k = rng.choice(['first', 'middle', 'last', 'several', 'first', 'middle'])
+    if k == 'first':
+        return [0]
+    if k == 'last':
+        return [n - 1]
+    if k == 'middle':
+        return [rng.randrange(1, n - 1)] if n > 2 else [0]
+    return rng.sample(range(n), rng.randint(1, n - 1))
+
+
+def has_gap(lines, n):
+    """an empty row (column) index that is followed by a non-empty one"""
+    present = sorted(set(lines))
+    return any(i not in present for i in range(max(present))) if present else False
 
 
 def gen_ml_case(rng, L=None, maxnnz=400, stream='valid'):
@@ -65,7 +95,7 @@ def gen_ml_case(rng, L=None, maxnnz=400, stream='valid'):
                 m = n = rng.randint(1, maxb)
             else:
                 m, n = rng.randint(1, maxb), rng.randint(1, maxb)
-            style = rng.choice(['random', 'random', 'random', 'offfirst', 'offfirst', 'banded', 'dense', 'symmetric'])
+            style = rng.choice(['random', 'random', 'emptyrc', 'emptyrc', 'offfirst', 'offfirst', 'banded', 'dense', 'symmetric'])
             if rng.random() < 0.02:
                 style = 'empty'
             p = rand_pattern(rng, m, n, style)
@@ -94,6 +124,10 @@ def gen_ml_case(rng, L=None, maxnnz=400, stream='valid'):
             return []
         if r < 0.3:
             return [rng.randrange(n)]
+        if r < 0.45 and n <= 48:
+            s = list(range(n))      # every row, unsorted
+            rng.shuffle(s)
+            return s
         k = rng.randint(1, min(n, 6))
         s = rng.sample(range(n), k)      # duplicate-free, unsorted
         if rng.random() < 0.2:
@@ -215,6 +249,17 @@ def gen_kronp_case(rng):
         m, n = rng.randint(1, maxb), rng.randint(1, maxb)
         dens = rng.choice([0.3, 0.6, 1.0])
         As.append([[rng.randint(1, 3) * rng.choice([1, -1]) if rng.random() < dens else 0 for _ in range(n)] for _ in range(m)])
+    if rng.random() < 0.5:
+        # factor matrices with zero rows / zero columns (first, middle, last, several)
+        for A in As:
+            if rng.random() < 0.7:
+                zr, zc = empty_lines(rng, len(A)), empty_lines(rng, len(A[0]))
+                if rng.random() < 0.4:
+                    zc = []
+                for i in range(len(A)):
+                    for j in range(len(A[0])):
+                        if i in zr or j in zc:
+                            A[i][j] = 0
     M = prod(len(A) for A in As)
     r = rng.random()
     if r < 0.12:
@@ -400,23 +445,7 @@ def property_failures(c, r):
         elif is_err(r['from_kvs']) or r['from_kvs']['ij'] != truth or r['from_kvs']['bs'] != [[r['numdofs'][1], r['numdofs'][0]]]:
             bad.append((slug + ':from_kvs', 'MLStructure.from_kvs differs from compute_sparsity_ij / numdofs'))
     elif k == 'kronp':
-        K = oracle.kron_dense(c['As'])
-        M, N = len(K), len(K[0]) if K else 0
-        rows = c['rows']
-        if c['restrict']:
-            exp = sorted([q, j, K[rw][j]] for q, rw in enumerate(rows) for j in range(N) if K[rw][j] != 0)
-            shp = [len(rows), N]
-        else:
-            exp = sorted([rw, j, K[rw][j]] for rw in rows for j in range(N) if K[rw][j] != 0)
-            shp = [M, N]
-        for key in ('out', 'out_csc'):
-            if is_err(r[key]) or r[key]['triples'] != exp or r[key]['shape'] != shp:
-                bad.append(('kron-partial' + (':restrict' if c['restrict'] else ''),
-                            'kron_partial(rows=%s, restrict=%s) is not the selected rows of the Kronecker product' % (rows, c['restrict'])))
-                break
-        exp_nz = sorted((i, j) for i in range(M) for j in range(N) if K[i][j] != 0)
-        if is_err(r['from_kronecker_nz']) or sorted(pairs2(r['from_kronecker_nz'])) != exp_nz:
-            bad.append(('from-kronecker', 'MLStructure.from_kronecker(As).nonzero() is not the pattern of kron(As)'))
+        bad += oracle.check_kronp(c, r)
     elif k == 'gen':
         if c['what'] == 'banded':
             n, bw = c['n'], c['bw']
@@ -574,21 +603,26 @@ def sweeps(ctx):
             ([B33, B22, B33], 50000 if thorough else 800),
             ([B22, B22, B22, B22], None if thorough else 2000), ([B22, B23, B22, B32], 60000 if thorough else 1000),
             ([B22, B22, B22, B22, B22], 40000 if thorough else 800)]
+    # the same enumeration for utils.kron_partial (restrict and not) and MLStructure.from_kronecker:
+    # factor matrices with every 0/1 pattern (zero rows and zero columns in every position included)
+    kp_plan = [([B22], None), ([B23], None), ([B32], None), ([B33], None), ([B22, B22], None), ([B22, B32], None),
+               ([B23, B22], None), ([B32, B23], None if thorough else 1500), ([B33, B22], None if thorough else 1500),
+               ([B22, B22, B22], None if thorough else 1000), ([B22, B32, B22, B23], 20000 if thorough else 600)]
     jobs = []
     meta = []
-    for blocks, sample in plan:
+    for blocks, sample, kp in [(b, sm, False) for b, sm in plan] + [(b, sm, True) for b, sm in kp_plan]:
         total = prod(2 ** (m * n) for m, n in blocks)
         if sample is None or sample >= total:
             nsh = max(1, min(16, total // 2000))
             for s in range(nsh):
-                jobs.append({'kind': 'sweep', 'blocks': blocks, 'shard': s, 'nshards': nsh, 'indices': None})
-                meta.append((blocks, True))
+                jobs.append({'kind': 'sweep', 'blocks': blocks, 'shard': s, 'nshards': nsh, 'indices': None, 'kron_partial': kp})
+                meta.append((blocks, True, kp))
         else:
             idx = [ctx.rng.randrange(total) for _ in range(sample)]
             nsh = max(1, min(16, sample // 1500))
             for s in range(nsh):
-                jobs.append({'kind': 'sweep', 'blocks': blocks, 'shard': 0, 'nshards': 1, 'indices': idx[s::nsh]})
-                meta.append((blocks, False))
+                jobs.append({'kind': 'sweep', 'blocks': blocks, 'shard': 0, 'nshards': 1, 'indices': idx[s::nsh], 'kron_partial': kp})
+                meta.append((blocks, False, kp))
 
     def one(j):
         return ctx.impl.run(DRIVER, {'cases': [j]}, timeout=6000)['results'][0]
@@ -596,8 +630,8 @@ def sweeps(ctx):
         outs = list(ex.map(one, jobs))
     dist = {}
     nfail = 0
-    for (blocks, exhaustive), j, o in zip(meta, jobs, outs):
-        key = 'x'.join('%dx%d' % tuple(b) for b in blocks) + (':all' if exhaustive else ':sampled')
+    for (blocks, exhaustive, kp), j, o in zip(meta, jobs, outs):
+        key = ('kron_partial:' if kp else '') + 'x'.join('%dx%d' % tuple(b) for b in blocks) + (':all' if exhaustive else ':sampled')
         if is_err(o):
             ctx.broken.append('sweep %s failed to run: %s' % (key, o))
             continue
@@ -608,6 +642,8 @@ def sweeps(ctx):
             nfail += 1
             if 'case' in f:
                 report_case(ctx, f['case'], f['impl'], [tuple(b) for b in f['bad']])
+        if o.get('crashed_chunks', 0) >= 8:
+            log('[C15] sweep %s stopped early after repeated crashes of the implementation' % key)
     return dist, nfail
 
 
@@ -662,10 +698,20 @@ def run(ctx):
     cases += [gen_kronp_case(rng) for _ in range(n_kp)]
     cases += [gen_gen_case(rng) for _ in range(n_gen)]
     dist = {}
+    gaps = {'level_pattern_with_empty_row_before_nonempty': 0, 'level_pattern_with_empty_column_before_nonempty': 0,
+            'kron_partial_factor_with_zero_row_or_column': 0}
+    for c in cases:
+        if c['kind'] in ('ml', 'hist'):
+            if any(has_gap([e[0] for e in p], b[0]) for p, b in zip(c['bidx'], c['bs'])):
+                gaps['level_pattern_with_empty_row_before_nonempty'] += 1
+            if any(has_gap([e[1] for e in p], b[1]) for p, b in zip(c['bidx'], c['bs'])):
+                gaps['level_pattern_with_empty_column_before_nonempty'] += 1
+        if c['kind'] == 'kronp' and any(any(not any(row) for row in A) or any(not any(col) for col in zip(*A)) for A in c['As']):
+            gaps['kron_partial_factor_with_zero_row_or_column'] += 1
     for c in cases:
         key = c['kind'] + (':L%d' % len(c['bs']) if c['kind'] in ('ml', 'hist') else '') + (':' + c['rel'] if c['kind'] == 'kvs' else '')
         dist[key] = dist.get(key, 0) + 1
-    log('[C15] %d cases: %s' % (len(cases), dist))
+    log('[C15] %d cases: %s %s' % (len(cases), dist, gaps))
 
     import time
     t0 = time.time()
@@ -715,7 +761,7 @@ def run(ctx):
                        'or one reindexing table / knot-vector pair / partial Kronecker product / generator call; '
                        'sweeps = every 0/1 pattern combination of the listed blocks; non-trivial = no empty level pattern; '
                        'distinct by full case content')
-    ctx.cov['input_distribution'] = {'cases': dist, 'sweeps': sw_dist}
+    ctx.cov['input_distribution'] = {'cases': dist, 'sweeps': sw_dist, 'empty_rows_columns': gaps}
     ctx.cov['exhaustive'] = False      # the random stream is not exhaustive; the swept families listed below are
     ctx.cov['exhaustive_parts'] = sorted(k for k in sw_dist if k.endswith(':all'))
     for k in (0, 1, 5):
